@@ -217,8 +217,9 @@ func TensorProto(name string, t *ref.T, enc string) *onnx.TensorProto {
 
 // DimSpec: >0 fixed, 0 unspecified (no value), <0 symbolic with name.
 type DimSpec struct {
-	Fixed int64  `json:"fixed,omitempty"`
-	Param string `json:"param,omitempty"`
+	Fixed      int64  `json:"fixed,omitempty"`
+	Param      string `json:"param,omitempty"`
+	EmptyParam bool   `json:"empty_param,omitempty"` // dim_param present but "" (an unnamed symbolic dimension)
 }
 
 func ValueInfo(name string, dt ref.DT, dims []DimSpec) *onnx.ValueInfoProto {
@@ -226,6 +227,8 @@ func ValueInfo(name string, dt ref.DT, dims []DimSpec) *onnx.ValueInfoProto {
 	for _, d := range dims {
 		dim := &onnx.TensorShapeProto_Dimension{}
 		switch {
+		case d.EmptyParam:
+			dim.Value = &onnx.TensorShapeProto_Dimension_DimParam{DimParam: ""}
 		case d.Param != "":
 			dim.Value = &onnx.TensorShapeProto_Dimension_DimParam{DimParam: d.Param}
 		case d.Fixed > 0:
@@ -241,6 +244,21 @@ func FixedDims(shape []int) []DimSpec {
 	out := make([]DimSpec, len(shape))
 	for i, s := range shape {
 		out[i] = DimSpec{Fixed: int64(s)}
+	}
+	return out
+}
+
+// ValueInfoTypeOnly declares name and element type but no shape.
+func ValueInfoTypeOnly(name string, dt ref.DT) *onnx.ValueInfoProto {
+	return &onnx.ValueInfoProto{Name: name, Type: &onnx.TypeProto{Value: &onnx.TypeProto_TensorType{
+		TensorType: &onnx.TypeProto_Tensor{ElemType: OnnxDT(dt)}}}}
+}
+
+// SymbolicDims: every axis symbolic with its own name.
+func SymbolicDims(rank int, prefix string) []DimSpec {
+	out := make([]DimSpec, rank)
+	for i := range out {
+		out[i] = DimSpec{Param: fmt.Sprintf("%s%d", prefix, i)}
 	}
 	return out
 }
